@@ -42,6 +42,28 @@ claim('C17', 'gating analysis: dominance / edge-cut rules over the call graph an
       'rustc front end + MIR (security feature set); mirfacts; std Option/Result::map semantics; governance attributes correct (C18); crypto plugin verifies (C16).',
       'DESIGN.md section 4 C17')
 
+claim('C16', 'must-pass-through (edge-cut with infeasible-edge pruning) and result-use rules on the security-feature MIR',
+      'Decides that the builtin crypto plugin cannot release data without a successful verification: in the three decode functions every value that can be a success '
+      'in a GMAC/GCM arm is defined on the Ok continuation of validate_mac/decrypt; no verification result is discarded or defaulted; the receiver-specific MAC '
+      'predicate is true only without a receiver-specific key or on a MAC verified under that key, and every caller gates success on it; header kind/key id are '
+      'compared with the key material. That altered bytes fail verification is a property of AES-GCM/GMAC (ring) and is assumed.',
+      'rustc front end + MIR (security feature set); mirfacts; ring AEAD; std Result::map/and_then/map_or_else semantics.',
+      'DESIGN.md section 4 C16')
+
+claim('C18', 'provenance (value-is-verified chase through Result combinators), who-may-read, first-match shape rules; exhaustive abstract interpretation of the interval and entity-kind formulas',
+      'Decides: access-control XML is parsed only from the Ok value of SignedDocument::verify_signature (3 sites); the raw content is readable only by the verifier; verify_signature '
+      'returns Ok only past the digest equality and the signature verification over that content; the four rule lookups take the first match of a forward iteration with the documented '
+      'fallbacks (default_action, missing topic rule => protected); DomainIds::matches and the entity-kind/protection tables are compared exhaustively with their reference formulas; '
+      'result = unprotected OR permitted. Glob/subject matching, XML parsing and the signature algorithm are assumed.',
+      'rustc front end + MIR (security feature set); mirfacts; rdv.absint; std Iterator::find / Option / Result combinator semantics; ring signature verification.',
+      'DESIGN.md section 4 C18')
+claim('C19', 'pairing (swap-out / write-back on every exit) and dominance (verification Ok-edges cut every path to a trusted state) rules on the security-feature MIR',
+      'Decides: every transition to CompletedWithFinalMessage* and every shared-secret computation lies behind the Ok continuations of the Identity-CA certificate check, the GUID '
+      'binding check, the challenge echoes and the signature verification of that step; begin_handshake_reply verifies before accepting; no verification result is discarded; and '
+      'whether the state swapped out of the handshake machine is restored on every exit (it is not: known finding F10, demonstrated). X.509, ECDH and signature algorithms are assumed.',
+      'rustc front end + MIR (security feature set); mirfacts; ring / x509 verification.',
+      'DESIGN.md section 4 C19')
+
 _pending = 'check not built yet in this revision (static rules designed in DESIGN.md section 4; implementation in progress)'
 for _p in ['C01', 'C02', 'C03', 'C04', 'C05', 'C06', 'C08', 'C09', 'C10', 'C11', 'C12', 'C14', 'C15', 'C16', 'C17', 'C18', 'C19', 'C20']:
     if _p not in CHECKS:
